@@ -120,6 +120,15 @@ def args_shard(spec, emit):
         X, y, _ = PB.build_data(ps)
         est = PB.build_estimator(ps, X.shape[1])
         wts = getattr(est, "weights", None)
+        if est_name == "GLE" and rep % 2 == 1:
+            # sample weights handed to a datafit are user-supplied hyper-parameter arrays too
+            import skglm.datafits as D
+            import skglm.penalties as P
+            from skglm.solvers import AndersonCD
+            import skglm.estimators as E
+            wts = rng.uniform(0.5, 3.0, size=X.shape[0]).astype(X.dtype)
+            est = E.GeneralizedLinearEstimator(D.WeightedQuadratic(wts), P.L1(ps["kwargs"]["alpha"]),
+                                               AndersonCD(tol=1e-6, fit_intercept=True))
         before = dict(X=dig(X), y=dig(y), weights=dig(wts))
         base = dict(id=cid, cell="fit|%s|%s" % (est_name, ps["storage"]), digest=digest(cid, seed), nontrivial=True)
         viols = []
@@ -128,7 +137,7 @@ def args_shard(spec, emit):
                 warnings.simplefilter("ignore")
                 est.fit(X, y)
                 d1, v1 = PB.model_digest(est)
-                after = dict(X=dig(X), y=dig(y), weights=dig(getattr(est, "weights", None)))
+                after = dict(X=dig(X), y=dig(y), weights=dig(wts))
                 for k in before:
                     if before[k] != after[k]:
                         viols.append(dict(mechanism="fit-modifies-input", estimator=est_name, argument=k, storage=ps["storage"],
@@ -193,14 +202,15 @@ def solve_shard(spec, emit):
                   fit_intercept=bool(rng.integers(0, 2)), strategy="subdiff", n=int(rng.integers(10, 30)), p=int(rng.integers(3, 10)),
                   knobs=dict(tol=1e-6), alpha_frac=0.1, n_tasks=2, warm=str(rng.choice(["cold", "dense"])))
         case = K.Case(cs)
-        df, pen = case.compiled()
-        w0, xw0 = case.start(cs["warm"])
         watched = dict(X=case.X, y=case.y)
         for nm in ("weights", "sw", "weights_groups", "weights_features", "alphas"):
             v = case.pen_prm.get(nm, case.df_prm.get(nm))
             if isinstance(v, np.ndarray):
                 watched[nm] = v
+        # digests are taken before the datafit is even initialised on the data (initialisation is part of the call)
         before = {k: dig(v) for k, v in watched.items()}
+        df, pen = case.compiled()
+        w0, xw0 = case.start(cs["warm"])
         solver = case.make_solver()
         rec = dict(id=cid, cell="solve|%s|%s|%s|%s" % (s, d, p_, cs["storage"]), digest=digest(cs), nontrivial=True,
                    count=dict(api_calls=1))
